@@ -284,4 +284,24 @@ theorem runG_mono {w : Nat} : ∀ (hist : List Arrival) {s : State} {now : Nat},
       intro g hg h hh; exact before_lt ((cross g hg h hh).2.2 hw)
 
 
+/-! ### small facts used by Props/C10.lean -/
+
+theorem runG_snoc (w : Nat) : ∀ (hist : List Arrival) (s : State) (a : Arrival),
+    runG w s (hist ++ [a]) =
+      ((stepG w (runG w s hist).1 a).1, (runG w s hist).2 ++ (stepG w (runG w s hist).1 a).2)
+  | [], s, a => by simp [runG]
+  | b :: bs, s, a => by simp [runG, runG_snoc w bs (stepG w s b).1 a, List.append_assoc]
+
+/-- the empty de-duplicator and a monotone history meet the hypotheses of `runG_mono` -/
+theorem mono_init (w : Nat) {hist : List Arrival} (hm : Spec.Dedup.Monotone hist) :
+    Bounded w 0 init ∧ MonoFrom 0 hist :=
+  ⟨fun _ h => by simp [init] at h, ⟨hm, fun _ _ => Nat.zero_le _⟩⟩
+
+/-- a pairwise relation on closed groups carries over to the records sent -/
+theorem pairwise_records {R : Group → Group → Prop} {Q : Record → Record → Prop}
+    (dec : Frame → Bool) {gs : List Group} (h : gs.Pairwise R)
+    (hq : ∀ g h, R g h → Q (recordOf g) (recordOf h)) : (records dec gs).Pairwise Q := by
+  simp only [records]
+  exact List.pairwise_map.mpr ((h.sublist List.filter_sublist).imp (hq _ _))
+
 end Rs1090.Dedup
